@@ -140,6 +140,11 @@ fn short_forms() -> &'static Vec<(Ev, String)> {
             if ev != Ev::Cpx && ev != Ev::I64 {
                 a.push("min(2,3)");
             }
+            if ev != Ev::Cpx {
+                // the zero-argument call is a call like any other
+                a.push("avg()");
+                a.push("avg(4)");
+            }
             if ev == Ev::Cpx {
                 a.push("(1+2i)");
             }
@@ -245,17 +250,19 @@ impl Prop for C12Prop {
         "C12"
     }
     fn rule(&self) -> String {
-        "Exhaustive short forms: left context {ε, 6/, 7%, 2*, 2+, 1-, 2^, -, +, (, 3&, 1|, 1<<, …} x A {literal, ( ), ⌊ ⌋, ⌈ ⌉, call, factorial} x B {( ), ⌊ ⌋, ⌈ ⌉, call, literal after a non-literal A} x suffix {ε, ^2, ², !, !^2, ^2!, ²!} x right context {ε, *2, +1, ^2, !, °, (2)} per evaluator; random trees (depth <=5) with juxtaposition nodes in every context; rejection block: every constant, @, superscript, ° and rad placed so that it would have to start or continue a product, alone and embedded. Oracles: (a) each juxtaposition A R of the reference parse rewritten to (A*(R)) - all at once and one at a time - must give the same outcome bit for bit; (b) exact reference evaluation of the reference parse; (c) rejection block must be Err. non-trivial = a product that is an operand of an operator of multiplicative or tighter level or of a prefix sign, or whose right factor carries a suffix; rejection cases are counted separately (class rejection-block) and included in distinct.".into()
+        "Exhaustive short forms: left context {ε, 6/, 7%, 2*, 2+, 1-, 2^, -, +, (, 3&, 1|, 1<<, …} x A {literal, ( ), ⌊ ⌋, ⌈ ⌉, call, factorial} x B {( ), ⌊ ⌋, ⌈ ⌉, call, literal after a non-literal A} x suffix {ε, ^2, ², !, !^2, ^2!, ²!} x right context {ε, *2, +1, ^2, !, °, (2)} per evaluator; juxtaposition chains of 2..512 factors and sums of 2..512 implicit products; random trees (depth <=5) with juxtaposition nodes in every context; rejection block: every constant, @, superscript, ° and rad placed so that it would have to start or continue a product, alone and embedded. Oracles: (a) each juxtaposition A R of the reference parse rewritten to (A*(R)) - all at once and one at a time - must give the same outcome bit for bit; (b) exact reference evaluation of the reference parse; (c) rejection block must be Err. non-trivial = a product that is an operand of an operator of multiplicative or tighter level or of a prefix sign, or whose right factor carries a suffix; rejection cases are counted separately (class rejection-block) and included in distinct.".into()
     }
     fn subs(&self, tier: Tier) -> Vec<Sub> {
         vec![
             Sub { name: "short", kind: SubKind::Enum { count: short_forms().len() as u64 } },
             Sub { name: "reject", kind: SubKind::Enum { count: rejection_block().len() as u64 } },
+            Sub { name: "long", kind: SubKind::Enum { count: super::long::all(true).iter().filter(|x| x.1.contains(")(") || x.1.contains("2(3)")).count() as u64 } },
             Sub { name: "tree", kind: SubKind::Random { cases: tier.pick(500_000, 20_000_000), len: 160 } },
         ]
     }
     fn gen_enum(&self, sub: &str, idx: u64, _tier: Tier) -> Option<Case> {
         let (ev, s) = match sub {
+            "long" => super::long::all(true).iter().filter(|x| x.1.contains(")(") || x.1.contains("2(3)")).nth(idx as usize)?.clone(),
             "short" => short_forms().get(idx as usize)?.clone(),
             _ => rejection_block().get(idx as usize)?.clone(),
         };
